@@ -492,29 +492,38 @@ class C05(Prop):
     thorough_n = 600
     search_n = 150
     design_ref = "5/C05"
-    technique = ("Lean 4 proof (big-step error-recovery machine; the core induction over all op trees is proved; top theorem model_satisfies_spec) + translator-generated "
-                 "constants + fault injection at every instruction of generated LPC programs (hook H2), model/implementation "
-                 "correspondence on outcome sets, register snapshots and control-stack shapes")
+    technique = ("Lean 4 proof (big-step error-recovery machine; the core induction over all op trees is proved; top theorems model_satisfies_spec, "
+                 "model_satisfies_spec_driver, model_satisfies_spec_backend) + translator-generated constants, statement shapes and the list of every "
+                 "interpreter global with how an unwinding puts it back + fault injection at every instruction of generated LPC programs (hook H2), also "
+                 "inside one cycle of the real backend(), model/implementation correspondence on outcome sets, register snapshots and control-stack shapes")
     level_text = ("Lean 4 theorems about an executable model of save_context/restore_context/pop_context, "
-                  "push/pop_control_stack, do_catch, safe_apply, error_handler and the T_ERROR_HANDLER slots, for all op "
+                  "push/pop_control_stack, do_catch, safe_apply, safe_call_function_pointer, error_handler (guards, heart-beat switch-off, catch_value), "
+                  "the T_ERROR_HANDLER slots, the call_out sweep and one cycle of backend() (command, heart beat, reset/clean_up sweep), for all op "
                   "trees of any nesting depth and every position of the fault; tied to the source by regenerated frame / "
-                  "error-state / origin constants and by running generated LPC programs with a fault injected at every "
-                  "instruction on the real driver and comparing outcome sets, register snapshots and control-stack shapes "
-                  "with the model; the Lean oracle judges every implementation trace")
+                  "error-state / origin constants, statement shapes, the saved/restored field and register lists and a classification of every "
+                  "file-scope global of the interpreter core, and by running generated LPC programs with a fault injected at every "
+                  "instruction on the real driver (also inside the real backend()) and comparing outcome sets, register snapshots (incl. the "
+                  "command_giver save stack, last_verb, both guards, chain depth) and control-stack shapes with the model; the Lean oracle judges "
+                  "every implementation trace, including the value every catch yields after the master's error handler ran")
     level_note = ("trusted: Lean kernel; extract.py; the correspondence harness (differential, only the generated programs); "
                   "registers are opaque values; value-stack depths of efun temporaries are approximated by the generator; "
-                  "heart-beat switch-off in error_handler and console-mode resume are not generated")
+                  "the master's error handler is a fixed function in the model (handlers that run catch() themselves are compared without fault "
+                  "injection); the frame-register clauses are proved for driver-level applies (runTop), for C code calling back (call_out, backend) "
+                  "only sp/csp/chain/guards/command_giver/last_verb; console-mode resume is not generated")
     rule = ("cases = corpus + known-finding inputs + boundary list + seeded random LPC programs (nested local calls, "
             "call_other incl. surplus arguments, function pointers of every kind, map/filter/sort_array/unique_array "
             "callbacks, catch in catch, error()/throw(), safe applies via sprintf(\"%O\"), create() in load_object/new, "
-            "input_to, enable_commands, init() hooks via move_object, move_or_destruct() hooks via destruct, and the program "
-            "as a callback of the real call_out() sweep; arity -3..+3 through call_other / function pointers / the driver's "
+            "input_to, enable_commands, init() hooks via move_object, move_or_destruct() hooks via destruct, command verbs via command(), "
+            "notify_fail() functions, map/filter over mappings, unique_mapping, the program as a callback of the real call_out() sweep and as one "
+            "cycle of the real backend() (a user command, a heart beat, reset(), clean_up()); master error handlers that run catch()/throw()/callbacks; arity -3..+3 through call_other / function pointers / the driver's "
             "safe_apply and safe_call_function_pointer with 0 or 4 locals; every frame kind at exactly limit-2 / limit-1 / limit "
             "frames of a lowered MaxCallDepth); every program is run once per instruction with a fault injected there; a case "
             "is non-trivial when its trace has >= 2 lines; distinct = distinct canonical implementation trace")
-    not_covered = ["heart-beat switch-off in error_handler, the backend() main-loop resume point and reset()/clean_up() recovery are not exercised (the call_out() sweep resume point is)",
-                   "C locals of efuns that are live across a longjmp (observed via ASan only)",
-                   "value-stack depths inside efuns are approximated (only the depth after recovery is observed)"]
+    not_covered = ["fault injection inside a master error handler that itself runs catch()/throw()/callbacks (such handlers are run on the driver without injected faults; the model's handler is a fixed function)",
+                   "'every uncaught first-level error leaves current_heart_beat cleared' is modelled, compared and witnessed, not proved for all programs",
+                   "C locals of efuns that are live across a longjmp: inventoried by the translator (41 call-back sites, 4 with an error-handler slot), observed via ASan on 9 efuns, not proved",
+                   "value-stack depths inside efuns are approximated (only the depth after recovery is observed)",
+                   "preload_objects, console-mode resume, do_slow_shutdown recovery points; varargs callees; get_char"]
 
     # ---- translator (T4-style): statement shapes / orders of the anchor functions, regenerated on every run ----
     def gen_extra(self, ctx, bdir):
